@@ -52,10 +52,18 @@ data = find_paths('data/*', type='f', exclude=['*.tmp'])
 nocache = find_paths('nocache/*.c', cache=False)
 assets = directory('assets', include='*.png')
 inc = header_directory('include', include='**/*.h')
-prog = executable('prog', ['main.c'] + srcs + plat, includes=[inc])
+def no_wip(path):
+    return (FindResult.exclude if 'wip' in path.basename()
+            else FindResult.include)
+tools = find_files('tools/*.c', filter=no_wip)
+gen = find_files('generated/*.c')
+prog = executable('prog', ['main.c'] + srcs + plat + tools + gen,
+                  includes=[inc])
 build_step('manifest.txt', cmd=['rec', 'MANIFEST', '--vf-out=manifest.txt'] +
            [i for i in data], files=data)
 submodule('sub')
+lib = library('c08lib', ['lib.c'])
+{pkg}
 {flags}
 """
 SUB_BFG = """\
@@ -79,7 +87,7 @@ TC_STATES = [
 ]
 
 DIRS = ['src', 'src/core', 'src/util', 'plat', 'data', 'assets', 'include',
-        'include/detail', 'sub', 'other']
+        'include/detail', 'sub', 'other', 'tools']
 NAMES = {
     'src': ['a.c', 'b.c', 'notes.md', 'c.h', 'x.cpp'],
     'src/core': ['k.c', 'l.c', 'README.md'],
@@ -91,14 +99,17 @@ NAMES = {
     'include/detail': ['impl.h'],
     'sub': ['s1.c', 's2.c', 'doc.txt'],
     'other': ['unrelated.c', 'junk'],
+    'tools': ['t1.c', 't_wip.c', 't2.c', 'zz.txt'],
 }
+# ('generated' is the base of a find_files pattern and absent at first)
 NEWDIRS = ['src/new', 'src/core/deep', 'include/extra', 'elsewhere',
-           'src/.hidden']
+           'src/.hidden', 'generated']
 
 
 class RegenMachine(RuleBasedStateMachine):
     backend = 'make'
     use_extra = False
+    use_pkg = False     # pkg_config(): the regeneration has several outputs
 
     def __init__(self):
         super().__init__()
@@ -124,6 +135,7 @@ class RegenMachine(RuleBasedStateMachine):
     def _fail(self, key, msg):
         v = Violation(key, msg, {'backend': self.backend,
                                  'use_extra': self.use_extra,
+                                 'use_pkg': self.use_pkg,
                                  'history': self.history})
         self._vf_holder['last'] = v
         raise v
@@ -150,6 +162,8 @@ class RegenMachine(RuleBasedStateMachine):
             sandbox.write_file(
                 os.path.join(self.src, 'build.bfg'), BUILD_BFG.format(
                     extra=", extra='*.md'" if self.use_extra else '',
+                    pkg=("pkg_config('c08pkg', version='1.0', libs=[lib])"
+                         if self.use_pkg else ''),
                     flags=flags('build')))
         if 'sub' in which:
             sandbox.write_file(os.path.join(self.src, 'sub', 'build.bfg'),
@@ -175,6 +189,8 @@ class RegenMachine(RuleBasedStateMachine):
                 self._add(d, n)
         sandbox.write_file(os.path.join(self.src, 'main.c'),
                            'int main(void){return 0;}\n')
+        sandbox.write_file(os.path.join(self.src, 'lib.c'),
+                           'int c08lib(void){return 0;}\n')
         os.makedirs(os.path.join(self.src, 'nocache'))
         sandbox.write_file(os.path.join(self.src, 'nocache', 'n.c'),
                            'int n(void){return 0;}\n')
@@ -328,9 +344,15 @@ class RegenMachine(RuleBasedStateMachine):
         self.history.append(['build'])
         self.clock.tick(self.tmp)
         log = os.path.join(self.tmp, 'bfg.log.{}'.format(self.builds))
-        env = dict(self.env, VF_BFGLOG=log)
+        env = dict(self.env, VF_BFGLOG=log, VF_BFG_MAX='6')
         target = 'Makefile' if self.backend == 'make' else 'build.ninja'
         r = sandbox.run_backend(self.backend, self.bld, env, [target])
+        if 'regeneration loop guard' in r.err + r.out:
+            self._fail('regen/not-converged/loop', 'one run of {} invoked '
+                       'bfg9000 more than 6 times after edits {}: the build '
+                       'file keeps regenerating itself: {}'.format(
+                           self.backend, self.pending,
+                           self._bfg_calls(log)[:8]))
         if self.backend == 'ninja' and r.rc == 2 and \
                 'refninja: unsupported' in r.err:
             raise HarnessError('reference ninja: ' + r.err[-500:])
@@ -440,24 +462,27 @@ def collect(bld):
     return out
 
 
-def _machine(backend, use_extra):
-    return type('RegenMachine_{}_{}'.format(backend, int(use_extra)),
+def _machine(backend, use_extra, use_pkg=False):
+    return type('RegenMachine_{}_{}_{}'.format(backend, int(use_extra),
+                                               int(use_pkg)),
                 (RegenMachine,), {'backend': backend,
-                                  'use_extra': use_extra})
+                                  'use_extra': use_extra,
+                                  'use_pkg': use_pkg})
 
 
-def _run(rec, seed, budget, shard, nshards, backend):
+def _run(rec, seed, budget, shard, nshards, backend, use_pkg=False):
     # `extra=` is left out while the known finding about the dist-list order
     # is open (counted as excluded)
     use_extra = not rec.is_open('regen/differs/dist-order-with-extra')
     if not use_extra:
         rec.excluded(budget)
-    run_machine(rec, _machine(backend, use_extra), budget, 16, seed)
+    run_machine(rec, _machine(backend, use_extra, use_pkg), budget, 16, seed)
 
 
 def replay_history(case, rec):
     """Re-run a recorded history without Hypothesis."""
-    M = _machine(case['backend'], case.get('use_extra', False))
+    M = _machine(case['backend'], case.get('use_extra', False),
+                 case.get('use_pkg', False))
     holder = {'last': None}
     M._vf_holder = holder
     M._vf_rec = rec
@@ -526,7 +551,11 @@ def tasks(tier):
     return [Task('regen-make', _run, quick=16 * 8, thorough=16 * 60,
                  backend='make'),
             Task('regen-ninja', _run, quick=16 * 6, thorough=16 * 60,
-                 backend='ninja')]
+                 backend='ninja'),
+            Task('regen-make-pkg', _run, quick=16 * 3, thorough=16 * 30,
+                 backend='make', use_pkg=True),
+            Task('regen-ninja-pkg', _run, quick=16 * 2, thorough=16 * 30,
+                 backend='ninja', use_pkg=True)]
 
 
 def replay(task, case, rec):
